@@ -34,11 +34,11 @@ class C04(Check):
     ASSUMPTIONS = ['keys are hashable and == is an equivalence on them (NaN / unhashable keys are outside the statement)']
     ANCHORS = ['rxsci/operators/group_by.py', 'rxsci/operators/multiplex.py', 'rxsci/state/memory_store.py']
     REQUIRED_TAGS = ['top', 'group', 'roll', 'roll_eq', 'split', 'key=kt', 'key=ks', 'key=kbig', 'key=kf', 'key=kmix', 'key=kneg', 'key=kmers', 'key=ktneg', 'key=knp', 'key=kcent', 'key=kobj', 'equal-items-different-keys', 'over-65536-keys', 'per-item', 'to_list',
-                     'many-keys', 'empty', 'over-256-keys'] + ['operator-object-used-in-two-pipelines'] + PRELUDE_TAGS
+                     'many-keys', 'empty', 'over-256-keys'] + ['operator-object-used-in-two-pipelines'] + PRELUDE_TAGS + ['prelude:overlap']
     REQUIRED_OBSERVED = ['child_lifetimes_checked', 'parent_lifetimes_checked', 'groups_flushed_at_completion']
 
     def generate(self, rng, tier, shard, nshards):
-        return with_prelude(with_reuse(self._generate(rng, tier, shard, nshards)), rng)
+        return with_prelude(with_reuse(self._generate(rng, tier, shard, nshards)), rng, overlap=True)
 
     def _generate(self, rng, tier, shard, nshards):
         k = 2600 if tier == 'quick' else 10 ** 7
